@@ -83,15 +83,17 @@ namespace Gtree
 
 /-! ### Stat on a key whose ancestors are directories -/
 
-theorem stat_go_dirs (fs : FS) (last : Bytes) (k : Kind) (hk : fs.kindOf last = some k) :
-    ∀ (l : List Bytes), (∀ q ∈ l, fs.kindOf q = some Kind.dir) → FS.stat.go fs (l ++ [last]) = .ok k
-  | [], _ => by simp [FS.stat.go, hk]
+theorem stat_go_dirs (fs : FS) (last : Bytes) (k : Kind) (hk : fs.kindOf last = some k) (hl : lastTooLong last = false) :
+    ∀ (l : List Bytes), (∀ q ∈ l, fs.kindOf q = some Kind.dir ∧ lastTooLong q = false) → FS.stat.go fs (l ++ [last]) = .ok k
+  | [], _ => by simp [FS.stat.go, hk, hl]
   | q :: l, h => by
     have hq := h q (by simp)
-    have ih := stat_go_dirs fs last k hk l (fun x hx => h x (by simp [hx]))
+    have ih := stat_go_dirs fs last k hk hl l (fun x hx => h x (by simp [hx]))
     cases l with
-    | nil => simp only [List.cons_append, List.nil_append, FS.stat.go, hq, hk]
-    | cons q2 qs => simp only [List.cons_append, FS.stat.go, hq]; simpa using ih
+    | nil => simp only [List.cons_append, List.nil_append, FS.stat.go, hq.1, hq.2, hk, hl, Bool.false_eq_true, if_false]
+    | cons q2 qs =>
+      simp only [List.cons_append, FS.stat.go, hq.1, hq.2, Bool.false_eq_true, if_false]
+      simpa using ih
 
 theorem prefixesOf_key_snoc {es : List Bytes} (h : GoodList es) :
     prefixesOf (key es) = (List.range (es.length - 1)).map (fun i => key (es.take (i + 1))) ++ [key es] := by
@@ -108,14 +110,14 @@ theorem stat_key {fs : FS} {es : List Bytes} (hg : GoodList es) (k : Kind)
     (hdirs : ∀ i < es.length - 1, fs.lookup (key (es.take (i + 1))) = some Kind.dir)
     (hk : fs.lookup (key es) = some k) :
     fs.stat (key es) = .ok k := by
-  simp only [FS.stat, pathRefusal_key hg, isAmbient_key hg, Bool.false_eq_true, if_false]
+  simp only [FS.stat, hasNul_key hg, isAmbient_key hg, Bool.false_eq_true, if_false]
   rw [prefixesOf_key_snoc hg]
-  apply stat_go_dirs fs (key es) k (by rw [kindOf_key hg]; exact hk)
+  apply stat_go_dirs fs (key es) k (by rw [kindOf_key hg]; exact hk) (lastTooLong_key hg)
   intro q hq
   simp only [List.mem_map, List.mem_range] at hq
   obtain ⟨i, hi, rfl⟩ := hq
   rw [kindOf_key (goodList_take hg i)]
-  exact hdirs i hi
+  exact ⟨hdirs i hi, lastTooLong_key (goodList_take hg i)⟩
 
 /-! ### "below" on keys -/
 
